@@ -6,6 +6,7 @@
 //!       meta=<hex|-> tlvs=<type:hex;..|-> keysend=<hex32|-> tamper=<hop,hop|-> tstep=<k>
 //!   raw noise=<hex> ad=<hex32|-> hops=<ss:payload>,..            (payload: serialized, with its length prefix)
 //!   peel ss=<hex32> ad=<hex32|-> data=<hex> hmac=<hex32>
+//!   keys sess=<hex32> hops=<seed:scid>,..
 //!   fail sess=<hex32> hops=<seed:scid>,.. at=<i> code=<u16> data=<hex> holds=<t0,..,ti> tstep=<k|0>
 //!   fulfill sess=<hex32> hops=<seed:scid>,.. holds=<t0,..>
 use std::collections::HashMap;
@@ -34,6 +35,34 @@ use verif_harness::*;
 struct NoLog;
 impl Logger for NoLog {
 	fn log(&self, _record: Record) {}
+}
+
+/// A logger that keeps the messages, to read which node the sender names in "Onion Error[from <node>: ..".
+struct CapLog(std::sync::Mutex<Vec<String>>);
+impl Logger for CapLog {
+	fn log(&self, record: Record) {
+		self.0.lock().unwrap().push(format!("{}", record.args));
+	}
+}
+impl CapLog {
+	fn new() -> Self {
+		CapLog(std::sync::Mutex::new(Vec::new()))
+	}
+	/// index in `path` of the node named by the last "Onion Error[from ..", "Unreadable failure from .." or
+	/// "Missing error code in failure from .." message
+	fn blamed(&self, path: &Path) -> Option<usize> {
+		let msgs = self.0.lock().unwrap();
+		for m in msgs.iter().rev() {
+			for pat in ["Onion Error[from ", "Unreadable failure from ", "Missing error code in failure from "] {
+				if let Some(pos) = m.find(pat) {
+					let node = &m[pos + pat.len()..];
+					let node: String = node.chars().take_while(|c| c.is_ascii_hexdigit()).collect();
+					return path.hops.iter().position(|h| hex(&h.pubkey.serialize()) == node);
+				}
+			}
+		}
+		None
+	}
 }
 
 fn kv(l: &str) -> HashMap<String, String> {
@@ -530,31 +559,58 @@ fn parse_path(a: &HashMap<String, String>) -> (Vec<Node>, Path) {
 	(nodes, Path { hops, blinded_tail: None })
 }
 
-fn decoded_json(d: &vh::DecodedFailure, path: &Path) -> (String, Option<usize>) {
-	// which hop does the sender blame? by node id / channel id, else by the number of hold times
+/// `keys sess=<hex32> hops=<seed:scid>,..`: the per-hop shared secrets of a path.
+fn do_keys(a: &HashMap<String, String>) -> String {
+	let secp = Secp256k1::new();
+	let sess = SecretKey::from_slice(&arr32(&a["sess"])).unwrap();
+	let (_nodes, path) = parse_path(a);
+	let (keys, _) = vh::hop_keys(&secp, &path, &sess);
+	format!("{{\"kind\":\"keys\",\"ss\":{}}}", jlist(&keys.iter().map(|k| js(&hex(&k.shared_secret))).collect::<Vec<_>>()))
+}
+
+fn decoded_json(d: &vh::DecodedFailure, path: &Path, blamed: Option<usize>) -> (String, Option<usize>, Vec<String>) {
+	// Which hop does the sender blame?  Primary: the node named in its log line.  The public fields of the
+	// result must be consistent with that hop.
 	let n = path.hops.len();
 	let by_node = d.failed_node.and_then(|id| path.hops.iter().position(|h| h.pubkey == id));
-	let by_chan = d.failed_channel.or(d.short_channel_id).and_then(|c| path.hops.iter().position(|h| h.short_channel_id == c));
-	let by_holds = if d.code.is_some() && !d.hold_times.is_empty() && d.hold_times.len() < 20 { Some(d.hold_times.len() - 1) } else { None };
-	let hop = by_holds.or(by_node).or(match by_chan {
-		// a channel failure names the failing hop's outbound channel unless it is the last hop
-		Some(c) if d.failed_node.is_none() && c > 0 && !(c == n - 1 && d.payment_failed_permanently) => Some(c - 1),
-		other => other,
-	});
+	let mut inconsistent = Vec::new();
+	if let Some(i) = blamed {
+		if let Some(b) = by_node {
+			if b != i {
+				inconsistent.push(js("network update names a different node than the log"));
+			}
+		}
+		let own = path.hops[i].short_channel_id;
+		let next = if i + 1 < n { path.hops[i + 1].short_channel_id } else { own };
+		if let Some(c) = d.failed_channel {
+			if c != next {
+				inconsistent.push(js("channel failure names a channel that is not the blamed hop's outbound channel"));
+			}
+		}
+		if let Some(c) = d.short_channel_id {
+			if c != own && c != next {
+				inconsistent.push(js("short_channel_id is not a channel of the blamed hop"));
+			}
+		}
+		if !d.hold_times.is_empty() && d.hold_times.len() != (i + 1).min(20) {
+			inconsistent.push(js("number of hold times does not match the blamed hop"));
+		}
+	}
 	(
 		format!(
-			"{{\"code\":{},\"data\":{},\"hold_times\":[{}],\"scid\":{},\"failed_node_idx\":{},\"failed_chan_idx\":{},\"perm\":{},\"unattributed\":{},\"hop\":{}}}",
+			"{{\"code\":{},\"data\":{},\"hold_times\":[{}],\"scid\":{},\"failed_node_idx\":{},\"failed_chan\":{},\"perm\":{},\"unattributed\":{},\"hop\":{}}}",
 			d.code.map(|c| c.to_string()).unwrap_or("null".into()),
 			jopt(&d.data),
 			d.hold_times.iter().map(|t| t.to_string()).collect::<Vec<_>>().join(","),
 			d.short_channel_id.map(|c| c.to_string()).unwrap_or("null".into()),
 			by_node.map(|c| c.to_string()).unwrap_or("null".into()),
-			by_chan.map(|c| c.to_string()).unwrap_or("null".into()),
+			d.failed_channel.map(|c| c.to_string()).unwrap_or("null".into()),
 			d.payment_failed_permanently,
 			d.unattributed,
-			hop.map(|c| c.to_string()).unwrap_or("null".into())
+			blamed.map(|c| c.to_string()).unwrap_or("null".into())
 		),
-		hop,
+		blamed,
+		inconsistent,
 	)
 }
 
@@ -583,8 +639,10 @@ fn do_fail(a: &HashMap<String, String>) -> String {
 		at_data = a2;
 		stages.push(js(&format!("{}:{}", hex(&d), at_data.as_ref().map(|x| hex(x)).unwrap_or("-".into()))));
 	}
-	let dec = vh::process_failure(&secp, &logger, &path, &sess, d.clone(), at_data.clone());
-	let (dec_json, hop) = decoded_json(&dec, &path);
+	let cap = CapLog::new();
+	let dec = vh::process_failure(&secp, &cap, &path, &sess, d.clone(), at_data.clone());
+	let (dec_json, hop, inconsistent) = decoded_json(&dec, &path, cap.blamed(&path));
+	judge.extend(inconsistent);
 	if dec.unattributed {
 		judge.push(js("the sender could not attribute an authentic failure"));
 	}
@@ -632,11 +690,11 @@ fn do_fail(a: &HashMap<String, String>) -> String {
 
 fn do_decode(a: &HashMap<String, String>) -> String {
 	let secp = Secp256k1::new();
-	let logger = NoLog;
 	let sess = SecretKey::from_slice(&arr32(&a["sess"])).unwrap();
 	let (_nodes, path) = parse_path(a);
-	let dec = vh::process_failure(&secp, &logger, &path, &sess, unhex(&a["data"]), opt_hex(&a["attr"]));
-	let (dec_json, _) = decoded_json(&dec, &path);
+	let cap = CapLog::new();
+	let dec = vh::process_failure(&secp, &cap, &path, &sess, unhex(&a["data"]), opt_hex(&a["attr"]));
+	let (dec_json, _, _) = decoded_json(&dec, &path, cap.blamed(&path));
 	format!("{{\"kind\":\"decode\",\"decoded\":{}}}", dec_json)
 }
 
@@ -681,6 +739,7 @@ fn main() {
 			"pay" => do_pay(&a),
 			"raw" => do_raw(&a),
 			"peel" => do_peel(&a),
+			"keys" => do_keys(&a),
 			"fail" => do_fail(&a),
 			"decode" => do_decode(&a),
 			"fulfill" => do_fulfill(&a),
